@@ -16,6 +16,7 @@ import (
 	"sort"
 	"strconv"
 	"strings"
+	"sync"
 
 	"github.com/fluhus/biostuff/align"
 	"github.com/fluhus/biostuff/formats/bed"
@@ -2616,7 +2617,20 @@ func mashRound6(c *Ctx) {
 func canonHugeStops(c *Ctx) {
 	s := c.bytesFrom([]byte("ACGT"), 1100000)
 	k := 21
-	for _, j := range []int{1, 5, 1000, 1<<20 - 1, 1 << 20, 1<<20 + 1} {
+	// stops where a sequence handled W bases at a time would change windows: after m windows' worth of items
+	// (m*(W-k+1)), and at the items that start or end at base m*W
+	js := []int{1, 5, 1000, 1<<20 - 1, 1 << 20, 1<<20 + 1}
+	for _, W := range []int{4096, 8192, 65536, 1 << 18, 1 << 20} {
+		for m := 1; m <= 3; m++ {
+			for d := -1; d <= 1; d++ {
+				js = append(js, m*(W-k+1)+d, m*W-(k-1)+d, m*W+d)
+			}
+		}
+	}
+	for _, j := range js {
+		if j < 1 || j >= len(s)-k+1 {
+			continue
+		}
 		seen, after, stopped := 0, 0, false
 		c.begin("CanonicalSubsequences over 1.1M bases stopped after %d items", j)
 		st := safe(func() string {
@@ -2829,4 +2843,183 @@ func fastaLengthSweep(c *Ctx) {
 		oracle = fmt.Sprintf("fasta: sequence length %d: %s", badLen, bad)
 	}
 	c.add(Case{Kind: "length-sweep", Nontrivial: true, Oracle: oracle, Note: fmt.Sprintf("fasta Write for every sequence length 0..%d against the stated layout", top)})
+}
+
+// regionsRound9: (a) the FIRST lookups of a fresh index arrive from many goroutines at once, on positions covered
+// by hundreds of intervals given in shuffled order (an index that finishes its work lazily inside At is not
+// read-only); every answer, and every later sequential answer, against brute force.  (b) intervals whose decimal
+// coordinates concatenate to the same digit string ([1,234) and [12,34); [-1,23) and [-12,3)): distinct intervals
+// that a key built without a separator cannot tell apart.
+func regionsRound9(c *Ctx) {
+	reps := 3
+	if c.thor {
+		reps = 12
+	}
+	for rep := 0; rep < reps; rep++ {
+		for _, depth := range []int{300, 700, 1500} {
+			if depth == 1500 && rep > 0 {
+				continue
+			}
+			n := depth + 40
+			starts, ends := make([]int, n), make([]int, n)
+			perm := c.rng.Perm(depth)
+			for j := 0; j < depth; j++ {
+				starts[j], ends[j] = -perm[j], 1000+perm[(j+1)%depth]
+			}
+			for j := depth; j < n; j++ {
+				starts[j] = c.rng.Intn(900)
+				ends[j] = starts[j] + 1 + c.rng.Intn(50)
+			}
+			qs := []int{0, 1, 500, 999, 1000, -1, 450, 2}
+			want := map[int][]int{}
+			for _, q := range qs {
+				want[q] = bruteAt(starts, ends, q)
+			}
+			oracle := ""
+			var mu sync.Mutex
+			note := func(s string) {
+				mu.Lock()
+				if oracle == "" {
+					oracle = s
+				}
+				mu.Unlock()
+			}
+			st := safe(func() string {
+				idx := regions.NewIndex(starts, ends)
+				var wg sync.WaitGroup
+				gate := make(chan struct{})
+				for g := 0; g < 16; g++ {
+					wg.Add(1)
+					go func(g int) {
+						defer wg.Done()
+						defer func() {
+							if r := recover(); r != nil {
+								note(fmt.Sprintf("At panicked when first called from several goroutines at once (%d intervals over one position): %v", depth, r))
+							}
+						}()
+						<-gate
+						for i := range qs {
+							q := qs[(i+g)%len(qs)]
+							if got := idx.At(q); !sameInts(got, want[q]) {
+								note(fmt.Sprintf("%d intervals over one position, first lookups from 16 goroutines at once: At(%d) = %v…, brute force gives %v…", depth, q, trunc(fmt.Sprint(got), 50), trunc(fmt.Sprint(want[q]), 50)))
+							}
+						}
+					}(g)
+				}
+				close(gate)
+				wg.Wait()
+				for _, q := range qs {
+					if got := idx.At(q); !sameInts(got, want[q]) {
+						note(fmt.Sprintf("%d intervals over one position: after concurrent lookups At(%d) = %v…, brute force gives %v…", depth, q, trunc(fmt.Sprint(got), 50), trunc(fmt.Sprint(want[q]), 50)))
+					}
+				}
+				return ""
+			})
+			if st == "PANIC" && oracle == "" {
+				oracle = "NewIndex/At panicked on a deep pile-up"
+			}
+			c.add(Case{Kind: "regions-concurrent-first-lookups", Nontrivial: true, Oracle: oracle, Note: fmt.Sprintf("fresh index, %d shuffled intervals over one position, 16 goroutines ask first", depth)})
+		}
+	}
+	for i := 0; i < c.n(40); i++ {
+		// a digit string cut at two different places gives two intervals with the same concatenated decimals
+		var ss, es []int
+		for p := 0; p < 1+c.rng.Intn(3); p++ {
+			L := 4 + c.rng.Intn(3)
+			d := make([]byte, L)
+			for j := range d {
+				d[j] = byte('1' + c.rng.Intn(9))
+			}
+			neg := c.rng.Intn(3) == 0
+			cuts := c.rng.Perm(L - 1)[:2]
+			for _, cut := range cuts {
+				a, _ := strconv.Atoi(string(d[:cut+1]))
+				b, _ := strconv.Atoi(string(d[cut+1:]))
+				if neg {
+					a = -a
+				}
+				ss, es = append(ss, a), append(es, b)
+			}
+		}
+		for j := 0; j < c.rng.Intn(4); j++ {
+			a := c.rng.Intn(2000) - 200
+			ss, es = append(ss, a), append(es, a+c.rng.Intn(300))
+		}
+		var qs []int
+		for j := range ss {
+			qs = append(qs, ss[j], ss[j]-1, es[j], es[j]-1, (ss[j]+es[j])/2)
+		}
+		oracle := ""
+		st := safe(func() string {
+			idx := regions.NewIndex(ss, es)
+			for _, q := range qs {
+				if got := idx.At(q); !sameInts(got, bruteAt(ss, es, q)) && oracle == "" {
+					oracle = fmt.Sprintf("NewIndex(%v, %v).At(%d) = %v, brute force gives %v", ss, es, q, got, bruteAt(ss, es, q))
+				}
+			}
+			return ""
+		})
+		if st == "PANIC" && oracle == "" {
+			oracle = fmt.Sprintf("NewIndex(%v, %v) / At panicked", ss, es)
+		}
+		c.add(Case{Kind: "regions-digit-collisions", Nontrivial: true, Oracle: oracle,
+			Note: fmt.Sprintf("NewIndex(%v, %v): coordinates whose decimals concatenate alike", ss, es)})
+	}
+}
+
+// alignLopsided: one sequence short (0..45 letters), the other long, the PRODUCT of the lengths just below and just
+// above round table sizes while the table (len+1)*(len+1) is not: where a fixed-size table chosen by the wrong
+// size test overflows.  Levenshtein and a shipped protein matrix, both argument orders, Global and Local.
+func alignLopsided(c *Ctx, prop string) {
+	type mat struct {
+		name string
+		m    align.SubstitutionMatrix
+		al   []byte
+	}
+	mats := []mat{{"Levenshtein", align.Levenshtein, []byte("abcdefgh")}, {"BLOSUM62", align.BLOSUM62, []byte(protAlpha)}}
+	for _, T := range []int{256, 1024, 4096, 16384} {
+		for _, la := range []int{0, 1, 2, 3, 5, 8, 16, 32, 45} {
+			var lbs []int
+			if la == 0 {
+				lbs = []int{T, T + T/32 + 2, 2 * T}
+			} else {
+				lbs = []int{T / la, T/la - 1, T/la + 1, (T + T/64) / la}
+			}
+			for _, lb := range lbs {
+				if lb < 0 || (la+1)*(lb+1) > 40000 {
+					continue
+				}
+				mt := mats[(la+lb+T)%2]
+				a, b := c.bytesFrom(mt.al, la), c.bytesFrom(mt.al, lb)
+				for swap := 0; swap < 2; swap++ {
+					if swap == 1 {
+						a, b = b, a
+					}
+					var gs, ls []align.Step
+					var gsc, lsc float64
+					var lai, lbi int
+					st := safe(func() string {
+						gs, gsc = align.Global(a, b, mt.m)
+						ls, lai, lbi, lsc = align.Local(a, b, mt.m)
+						return ""
+					})
+					oracle := ""
+					if st == "PANIC" {
+						oracle = fmt.Sprintf("Global/Local panicked on sequences of %d and %d letters (%s)", len(a), len(b), mt.name)
+					} else if sc, ai, bi, ok := rescore(mt.m, a, b, gs); !ok || ai != len(a) || bi != len(b) || sc != gsc {
+						oracle = fmt.Sprintf("Global on %d and %d letters (%s): the steps do not re-score to the returned score", len(a), len(b), mt.name)
+					} else if sc, _, _, ok := rescore(mt.m, a[min(max(lai, 0), len(a)):], b[min(max(lbi, 0), len(b)):], ls); len(ls) > 0 && (!ok || sc != lsc) {
+						oracle = fmt.Sprintf("Local on %d and %d letters (%s): the steps do not re-score to the returned score", len(a), len(b), mt.name)
+					} else if prop == "C09" {
+						if opt := gotoh(mt.m, a, b, false); gsc != opt {
+							oracle = fmt.Sprintf("Global on %d and %d letters (%s) returns %v, optimum is %v", len(a), len(b), mt.name, gsc, opt)
+						} else if opt := gotoh(mt.m, a, b, true); lsc != opt {
+							oracle = fmt.Sprintf("Local on %d and %d letters (%s) returns %v, optimum is %v", len(a), len(b), mt.name, lsc, opt)
+						}
+					}
+					c.add(Case{Kind: "lopsided", Nontrivial: true, Oracle: oracle, Note: fmt.Sprintf("Global and Local on %d and %d letters, %s", len(a), len(b), mt.name)})
+				}
+			}
+		}
+	}
 }
